@@ -456,38 +456,74 @@ fn hist_blob(tag: usize, variant: usize) -> Vec<u8> {
     }
 }
 
-/// source fonts for copy_missing_tables: each has one tag overlapping HTAGS and one new tag
-fn source_fonts() -> [Vec<u8>; 2] {
+/// Source fonts for copy_missing_tables.
+/// S1, S2: harness-built, each with one tag overlapping HTAGS and one new tag (S2 has a `head`).
+/// S3, S4: the two members of the repository's TTC.ttc test collection, opened with
+/// `FontRef::from_index` (real tables incl. `head`; table offsets are relative to the collection file).
+struct Sources {
+    /// (file bytes, index within the file)
+    files: Vec<(Vec<u8>, u32)>,
+    /// what each source contains, established without read-fonts (harness knowledge for S1/S2, an own
+    /// parse of the TTC header and member directory for S3/S4)
+    models: Vec<Vec<([u8; 4], Vec<u8>)>>,
+}
+
+fn ttc_member_tables(file: &[u8], index: usize) -> Option<Vec<([u8; 4], Vec<u8>)>> {
+    if file.get(0..4)? != b"ttcf" {
+        return None;
+    }
+    let n = be32(file, 8)? as usize;
+    if index >= n {
+        return None;
+    }
+    let dir = be32(file, 12 + 4 * index)? as usize;
+    let count = be16(file, dir + 4)? as usize;
+    let mut out = vec![];
+    for i in 0..count {
+        let at = dir + 12 + 16 * i;
+        let tag: [u8; 4] = file.get(at..at + 4)?.try_into().ok()?;
+        let off = be32(file, at + 8)? as usize;
+        let len = be32(file, at + 12)? as usize;
+        out.push((tag, file.get(off..off + len)?.to_vec()));
+    }
+    Some(out)
+}
+
+fn sources() -> Sources {
     let mut a = FontBuilder::new();
     a.add_raw(Tag::new(b"aaaa"), vec![0xA1u8; 7]);
     a.add_raw(Tag::new(b"zzzz"), vec![0xA2u8; 5]);
     let mut b = FontBuilder::new();
     b.add_raw(Tag::new(b"head"), vec![0xB1u8; 14]);
     b.add_raw(Tag::new(b"DSIG"), vec![0xB2u8; 4]);
-    [a.build(), b.build()]
-}
-/// what the harness itself put into those sources (the model does not read it back from the font)
-fn source_model(i: usize) -> Vec<([u8; 4], Vec<u8>)> {
-    if i == 0 {
-        vec![(*b"aaaa", vec![0xA1u8; 7]), (*b"zzzz", vec![0xA2u8; 5])]
-    } else {
+    let mut files = vec![(a.build(), 0), (b.build(), 0)];
+    let mut models = vec![
+        vec![(*b"aaaa", vec![0xA1u8; 7]), (*b"zzzz", vec![0xA2u8; 5])],
         // the source font's own head got its adjustment field rewritten when *it* was built:
         // bytes 8..12 are excepted by the statement, and check_sfnt skips them for `head`.
-        vec![(*b"head", vec![0xB1u8; 14]), (*b"DSIG", vec![0xB2u8; 4])]
+        vec![(*b"head", vec![0xB1u8; 14]), (*b"DSIG", vec![0xB2u8; 4])],
+    ];
+    let ttc = std::fs::read(repo_root().join("font-test-data/test_data/ttc/TTC.ttc")).unwrap_or_default();
+    for i in 0..2 {
+        if let Some(m) = ttc_member_tables(&ttc, i) {
+            files.push((ttc.clone(), i as u32));
+            models.push(m);
+        }
     }
+    Sources { files, models }
 }
 
-const N_OPS: u32 = 8; // 6 add_raw + 2 copy
+const N_ADD: u32 = 6;
 
 fn op_name(op: u32) -> String {
-    if op < 6 {
+    if op < N_ADD {
         format!("add_raw({},{})", Tag::new(HTAGS[(op / 2) as usize]), if op % 2 == 0 { "A" } else { "B" })
     } else {
-        format!("copy_missing(S{})", op - 5)
+        format!("copy_missing(S{}{})", op - 5, if op >= 8 { ":TTC member" } else { "" })
     }
 }
 
-fn run_history(run: &Run, ops: &[u32], srcs: &[Vec<u8>; 2], l: &mut Local) {
+fn run_history(run: &Run, ops: &[u32], srcs: &Sources, l: &mut Local) {
     let mut model: BTreeMap<[u8; 4], Vec<u8>> = BTreeMap::new();
     let case = json!({"family":"history","ops":ops});
     let names: Vec<String> = ops.iter().map(|o| op_name(*o)).collect();
@@ -497,7 +533,8 @@ fn run_history(run: &Run, ops: &[u32], srcs: &[Vec<u8>; 2], l: &mut Local) {
             if op < 6 {
                 b.add_raw(Tag::new(HTAGS[(op / 2) as usize]), hist_blob((op / 2) as usize, (op % 2) as usize));
             } else {
-                let f = FontRef::new(&srcs[(op - 6) as usize]).expect("source font opens");
+                let (bytes, index) = &srcs.files[(op - 6) as usize];
+                let f = FontRef::from_index(bytes, *index).expect("source font opens");
                 b.copy_missing_tables(f);
             }
         }
@@ -509,8 +546,8 @@ fn run_history(run: &Run, ops: &[u32], srcs: &[Vec<u8>; 2], l: &mut Local) {
             model.insert(*HTAGS[(op / 2) as usize], hist_blob((op / 2) as usize, (op % 2) as usize));
         } else {
             // copying never overrides
-            for (t, bytes) in source_model((op - 6) as usize) {
-                model.entry(t).or_insert(bytes);
+            for (t, bytes) in &srcs.models[(op - 6) as usize] {
+                model.entry(*t).or_insert_with(|| bytes.clone());
             }
         }
     }
@@ -556,14 +593,19 @@ fn run_history(run: &Run, ops: &[u32], srcs: &[Vec<u8>; 2], l: &mut Local) {
 }
 
 fn histories(run: &Run, depth: usize) {
-    let srcs = source_fonts();
+    let srcs = sources();
+    let n_ops = N_ADD + srcs.files.len() as u32;
+    run.count("copy_sources", srcs.files.len() as u64);
+    if srcs.files.len() != 4 {
+        run.machinery_error("TTC.ttc test collection not found or not parseable: TTC-member sources missing");
+    }
     // all op sequences of length 0..=depth, in fixed (length, lexicographic) order
     let mut seqs: Vec<Vec<u32>> = vec![vec![]];
     let mut layer: Vec<Vec<u32>> = vec![vec![]];
     for _ in 0..depth {
         let mut next = vec![];
         for s in &layer {
-            for op in 0..N_OPS {
+            for op in 0..n_ops {
                 let mut s2 = s.clone();
                 s2.push(op);
                 next.push(s2);
@@ -632,7 +674,7 @@ fn body(run: &Run, replay: Option<&Value>) {
         let mut l = Local::new();
         if case["family"] == "history" {
             let ops: Vec<u32> = case["ops"].as_array().map(|a| a.iter().map(|x| x.as_u64().unwrap_or(0) as u32).collect()).unwrap_or_default();
-            run_history(run, &ops, &source_fonts(), &mut l);
+            run_history(run, &ops, &sources(), &mut l);
         } else {
             let c = MapCase::from_json(case);
             let k = c.tags.len();
@@ -669,14 +711,19 @@ fn body(run: &Run, replay: Option<&Value>) {
             let orders4 = vec![vec![0, 1, 2, 3], vec![3, 2, 1, 0], vec![1, 3, 0, 2], vec![2, 0, 3, 1]];
             maps_family(run, 4, &LENS_FULL, &FILLS_FULL, &orders4, "4tags_full_alphabet_4_orders");
             maps_family(run, 5, &[0, 3, 4, 13], &[1, 2], &[vec![0, 1, 2, 3, 4], vec![4, 3, 2, 1, 0], vec![2, 4, 1, 3, 0]], "5tags_small_alphabet_3_orders");
+            // 6, 7 and all 8 tags over the 3-length alphabet {0, 3, 13} x {FF, ramp} in 3 orders
+            let big_orders = |k: usize| -> Vec<Vec<usize>> { vec![(0..k).collect(), (0..k).rev().collect(), (0..k).map(|i| (i * 5 + 1) % k.max(1)).collect()] };
+            maps_family(run, 6, &[0, 3, 13], &[1, 2], &big_orders(6), "6tags_3lengths_3_orders");
+            maps_family(run, 7, &[0, 3, 13], &[1, 2], &big_orders(7), "7tags_3lengths_3_orders");
+            maps_family(run, 8, &[0, 3, 13], &[1, 2], &big_orders(8), "8tags_3lengths_3_orders");
             large_tables(run);
-            run.bound("maps", json!("<=3 tags: full alphabets, all orders; 4 tags: reduced lengths x 3 fills in all 24 orders and full alphabets in 4 orders (identity, reverse, two derangements); 5 tags: lengths {0,3,4,13} x {FF,ramp} in 3 orders; two-table fonts with one table of 65533..70003 bytes"));
+            run.bound("maps", json!("<=3 tags: full alphabets, all orders; 4 tags: reduced lengths x 3 fills in all 24 orders and full alphabets in 4 orders (identity, reverse, two derangements); 5 tags: lengths {0,3,4,13} x {FF,ramp} in 3 orders; 6, 7 and 8 tags: lengths {0,3,13} x {FF,ramp} in 3 orders; two-table fonts with one table of 65533..70003 bytes"));
         }
     }
     // (b) histories
     let depth = run.tier.pick(4, 5);
     run.bound("history_depth", json!(depth));
-    run.bound("history_ops", json!((0..N_OPS).map(op_name).collect::<Vec<_>>()));
+    run.bound("history_ops", json!((0..N_ADD + 4).map(op_name).collect::<Vec<_>>()));
     histories(run, depth);
     // samples
     let s = MapCase { tags: vec![0, 2, 5], lens: vec![13, 3, 16], fills: vec![1, 2, 1], order: vec![2, 0, 1] };
